@@ -422,6 +422,13 @@ def initial_state(rng, ncell, kind, g, per):
         elif kind == "random":
             n, T = 10 ** rng.uniform(-2, 1), 10 ** rng.uniform(1.5, 3)
             v = [rng.gauss(0, 0.5) * cs0 for _ in range(3)]
+        elif kind == "negjump":
+            # everything moves in the negative directions (all neighbour values of a velocity are negative) with a
+            # non-linear profile, across a density / temperature jump: the slope limiter is active everywhere
+            hi = X[jump_ax] < cut[jump_ax]
+            n, T = ((1.0, 100.) if hi else (0.125, 80.))
+            n *= 1.0 + 0.2 * s * s
+            v = [-(0.25 + 0.2 * s * s + 0.1 * math.sin(ph[a] + 1.7 * X[a])) * cs0 for a in range(3)]
         elif kind == "wallflow":
             # uniform gas running into one reflecting wall at Mach 1.0 .. 1.37 (below the 1.5 of the property)
             n, T = 1.0, 100.
@@ -476,6 +483,8 @@ class Trace:
         self.steps = []     # dict(H0, H1, dump0 {(igrid,local): rec}, dump1, calls [..], tasks)
         self.base = {}      # igrid -> (addr, stride, limaddr, ncell)
         self.tasktype = {}  # itask -> (igrid, slot, type)
+        self.subs = {}      # igrid -> neighbour subgrid indices (X_P, X_N, Y_P, Y_N, Z_P, Z_N)
+        self.locks = {}     # itask -> set of subgrids whose lock the task takes (Task::_dependency[0..1])
         self.children = {}  # itask -> child task indices as constructed by set_dependencies
         self.taskfoot = {}  # itask -> set of subgrids it locks (its own and, for a pair task, the neighbour)
         cur = None
@@ -486,9 +495,12 @@ class Trace:
             if len(w) < 2:
                 continue
             k = w[1]
-            if k == "T" and len(w) >= 6 and w[4] != "-1":
+            if k == "G":
+                self.subs[int(w[2])] = [int(x) for x in w[3:9]]
+            elif k == "T" and len(w) >= 6 and w[4] != "-1":
                 self.tasktype[int(w[4])] = (int(w[2]), int(w[3]), int(w[5]))
                 self.taskfoot[int(w[4])] = set(int(x) for x in (w[6], w[7], w[8]) if int(x) >= 0)
+                self.locks[int(w[4])] = set(int(x) for x in (w[7], w[8]) if int(x) >= 0)
                 self.children[int(w[4])] = [int(x) for x in w[10:10 + int(w[9])]]
             elif k == "S":
                 cur = dict(H={}, dump={0: {}, 1: {}}, calls=[], order=[])
@@ -780,6 +792,53 @@ def wall_mach(dump0, coords, ncell, per, g, dt=None, box=(1., 1., 1.)):
     return worst
 
 
+PAIR_SLOT_DIR = {1: 0, 3: 2, 5: 4, 10: 0, 12: 2, 14: 4}     # slot -> index of the +x / +y / +z neighbour in the G record
+_OUTSIDE = [None]
+
+
+def lockset_oracle(ctx, tr, cfg, rep, tag, st):
+    """premise of conservation (and of C07's conflict freedom) on the real task table: a task takes the lock of every
+    subgrid whose cells its sweep writes - its own subgrid and, for a pair sweep, the neighbour above.
+    Evaluated on the dumped table itself (independent of the Lean model), and compared with drv_c07's lockset."""
+    if _OUTSIDE[0] is None:
+        _OUTSIDE[0] = simrun.enums()["NEIGHBOUR_OUTSIDE"]
+    bad = 0
+    for it, (g, slot, typ) in sorted(tr.tasktype.items()):
+        foot = {g}
+        if slot in PAIR_SLOT_DIR and g in tr.subs:
+            n = tr.subs[g][PAIR_SLOT_DIR[slot]]
+            if n != _OUTSIDE[0]:
+                foot.add(n)
+        st["lines"] += 1
+        if not foot <= tr.locks.get(it, set()):
+            bad += 1
+            st["oracle_failures"] += 1
+            ctx.violation("tasks:lock-set-does-not-cover-footprint",
+                          "hydro task in slot %d of subgrid %d writes cells of subgrid(s) %s but only locks %s (%s): two threads can update the same cell at once and flux contributions are lost"
+                          % (slot, g, sorted(foot), sorted(tr.locks.get(it, set())), tag), dict(rep, slot=slot, subgrid=g))
+    return bad
+
+
+def lockset_model_check(ctx, tr, cfg, tag, st):
+    """the same table against the Lean model of C07 (drv_c07: `task g slot` -> `... locks=[..] ...`)"""
+    layout, per = cfg["layout"], cfg["per"]
+    ops = ["layout %d %d %d %d %d %d" % (tuple(layout) + tuple(int(p) for p in per))]
+    keys = sorted((g, slot, it) for it, (g, slot, typ) in tr.tasktype.items())
+    ops += ["task %d %d" % (g, slot) for (g, slot, it) in keys]
+    rc, out, err = vlib.run_exe(vlib.driver("drv_c07"), "\n".join(ops) + "\n")
+    lines = [l for l in out.split("\n") if l]
+    for (g, slot, it), l in zip(keys, lines[1:]):
+        m = l.split("locks=[")
+        if len(m) < 2:
+            continue
+        mod = set(int(x) for x in m[1].split("]")[0].split())
+        st["lines"] += 1
+        if mod != tr.locks.get(it, set()):
+            st["mismatches"] += 1
+            ctx.broken_obligation("task table: subgrid %d slot %d locks %s in the implementation but %s in the Lean model (%s)" % (g, slot, sorted(tr.locks.get(it, set())), sorted(mod), tag), "")
+            return
+
+
 def check_run(ctx, cfg, res, model, stream):
     """all checks on one finished run.  Returns the decoded trace (or None)."""
     layout, cells, per, g = cfg["layout"], cfg["cells"], cfg["per"], cfg["g"]
@@ -799,6 +858,10 @@ def check_run(ctx, cfg, res, model, stream):
         ctx.broken_obligation("no hydro totals in the trace (hook H3 for C04 missing in this tree?) " + tag, res["log"][-400:])
         return None
     st = ctx.cov["correspondence_streams"].setdefault(stream, {"lines": 0, "mismatches": 0, "oracle_failures": 0})
+    if tr.tasktype:
+        ctx.branch("task-tables-checked")
+        lockset_oracle(ctx, tr, cfg, rep, tag, st)
+        lockset_model_check(ctx, tr, cfg, tag, st)
     # cell identity from the midpoints
     coords = cell_coords_from_midpoints(tr.steps[0]["dump"][0], ncell, cfg["box"]) if tr.steps[0]["dump"][0] else None
     if coords is not None:
@@ -878,6 +941,94 @@ def check_run(ctx, cfg, res, model, stream):
     return tr
 
 
+# ------------------------------------------------------------------ untraced multi-thread runs under scheduling jitter
+def snapshot_totals(state, g):
+    """(mass, px, py, pz, energy) per unit cell volume from the primitives of a snapshot, exact rational sums"""
+    F = fractions.Fraction
+    tot = [F(0)] * 5
+    for v in state.values():
+        if any(x != x or abs(x) == float("inf") for x in v):
+            return None
+        rho, vx, vy, vz, P = [F(x) for x in v]
+        tot[0] += rho
+        tot[1] += rho * vx
+        tot[2] += rho * vy
+        tot[3] += rho * vz
+        tot[4] += P / F(g - 1.) + rho * (vx * vx + vy * vy + vz * vz) / 2
+    return tot
+
+
+def stress_conservation(ctx, binary, nsetups, njit):
+    """conservation under real concurrency.  Traced runs serialise parts of the worker loop, so these runs are
+    UNTRACED (no hook mutex): 4 / 8 / 16 threads with seeded delays at the atomic operations
+    (LD_PRELOAD harness/c10_jitter.cpp), 10-30 steps in a periodic box; the conserved totals of the final snapshot
+    the code writes itself must equal those of the one-thread run and those of the initial snapshot."""
+    from props import c10
+    rng = ctx.rng
+    stream = ctx.cov["correspondence_streams"].setdefault("untraced-jitter-totals", {"lines": 0, "mismatches": 0, "oracle_failures": 0})
+    names = ["mass", "x momentum", "y momentum", "z momentum", "energy"]
+    for _ in range(nsetups):
+        layout = rng.choice([(2, 2, 2), (2, 2, 3), (3, 2, 2), (2, 3, 2), (1, 2, 2), (2, 2, 2)])
+        cells = rng.choice([(2, 2, 2), (3, 3, 3), (4, 4, 4)])
+        per = (True, True, True)
+        g = rng.choice(GAMMAS[:4])
+        kind = rng.choice(["random", "jump", "smooth", "random"])
+        ncell = [layout[a] * cells[a] for a in range(3)]
+        box = (1., 1., 1.)
+        states = initial_state(rng, ncell, kind, g, per)
+        total = rng.choice([3.e-5, 6.e-5]) * 2.0 / max(cells)
+        param = make_param(layout, per, cells, g, states, box=box, total_time=total).replace("  type: AsciiFile", "  type: Gadget")
+        setup = dict(param=param, blocks=block_density(ncell, box, states), ncell=ncell, box=box)
+        tag = "layout %s cells/subgrid %s periodic box gamma %.4g %s total time %g" % (layout, cells, g, kind, total)
+        rep0 = dict(layout=layout, cells=cells, per=per, g=g, kind=kind, ncell=ncell, box=box, param=param, blocks=setup["blocks"], stress=True)
+        status, ref, log, first = c10.stress_run(binary, setup, 1, None, want_first=True)
+        ctx.count()
+        if ref is None or first is None:
+            ctx.violation("stress:one-thread-run-" + status.split("(")[0], "the one-thread run ended with %s (%s): %s" % (status, tag, log), dict(rep0, threads=1, jitter=None))
+            continue
+        nfaces = sum(python_grid_faces(ncell, per).values())
+        nsteps = int(status.split(":")[1]) if ":" in status else 1
+        tol = TOL_TOTAL * nfaces * max(1, nsteps)
+        t0, t1 = snapshot_totals(first, g), snapshot_totals(ref, g)
+        pscale = fractions.Fraction(math.sqrt(2 * float(t0[0]) * float(t0[4])))
+        scale = [t0[0], pscale, pscale, pscale, t0[4]]
+        one_thread_conserves = t1 is not None and all(abs(t1[j] - t0[j]) <= tol * scale[j] for j in range(5))
+        ctx.branch("stress-setups")
+        ctx.branch("stress-one-thread-conserves" if one_thread_conserves else "stress-one-thread-clamped")
+        if not one_thread_conserves and t1 is not None:
+            # with CFL 0.2 no clamp is expected: report (the traced runs check this step by step)
+            ctx.notes.append("one-thread stress run does not conserve the totals to %.1e (%s)" % (tol, tag))
+        for _ in range(njit):
+            threads = rng.choice([4, 8, 16])
+            jitter = "%d:%d:%d:%d:%d" % (rng.randrange(1, 10 ** 6), rng.choice([300, 600, 900]), rng.choice([20, 60, 150]), rng.choice([2, 5, 20]), rng.choice([5, 30, 100]))
+            status, st, log = c10.stress_run(binary, setup, threads, jitter)
+            ctx.count()
+            ctx.branch("stress-runs")
+            ctx.distinct(("stress", layout, cells, kind, threads, jitter))
+            rep = dict(rep0, threads=threads, jitter=jitter,
+                       cmd="LD_PRELOAD=libc10_jitter.so CMAC_VERIF_JITTER10=%s CMacIonize --params run.param --task-based-rhd --threads %d   (no CMAC_VERIF_TRACE)" % (jitter, threads))
+            stream["lines"] += 5
+            if st is None:
+                stream["oracle_failures"] += 1
+                ctx.violation("stress:" + status.split("(")[0].split(":")[0], "untraced run with %d threads under scheduling jitter %s ended with %s (%s): %s" % (threads, jitter, status, tag, log), rep)
+                continue
+            tn = snapshot_totals(st, g)
+            if tn is None:
+                stream["oracle_failures"] += 1
+                ctx.violation("stress:not-finite", "non-finite values in the final snapshot of an untraced %d-thread run (%s)" % (threads, tag), rep)
+                continue
+            for j in range(5):
+                d1 = abs(tn[j] - t1[j]) / scale[j]
+                d0 = abs(tn[j] - t0[j]) / scale[j]
+                ctx.cov["worst_relative_stress_total_difference"] = max(ctx.cov.get("worst_relative_stress_total_difference", 0.0), float(d1))
+                if d1 > tol or (one_thread_conserves and d0 > tol):
+                    stream["oracle_failures"] += 1
+                    ctx.violation("stress:totals-not-conserved-with-threads",
+                                  "total %s after %d steps on %d threads (untraced, scheduling jitter %s) differs from the one-thread run by %.3e and from the initial total by %.3e (relative; tolerance %.1e; the one-thread run conserves: %s; %s)"
+                                  % (names[j], nsteps, threads, jitter, float(d1), float(d0), tol, one_thread_conserves, tag), rep)
+                    break
+
+
 def do_runs(ctx, nruns, max_cells, steps_choices=(1, 2, 3)):
     binary = vlib.full_binary()
     drv = vlib.driver("drv_c04")
@@ -915,8 +1066,9 @@ def run(ctx):
         "limiter_bounds needs `neighbour minimum <= neighbour maximum` (true once one gradient call has touched the cell); at a local extremum the code's alpha is negative and face values may lie beyond the extremum (theorem limiter_overshoots_local_extremum) - non-negativity of the face densities/pressures comes from Hydro::limit, not from the slope limiter",
         "the predicted density/pressure are only non-negative thanks to the clamps (theorem predict_needs_clamp); how often the clamp acts on generated states is reported in coverage.predict_clamp_by_kind",
         "other boundary types (inflow, outflow, Bondi) are not modelled",
+        "conservation under concurrency rests on `every task locks every subgrid it writes`: checked on the dumped task table of every traced run (oracle tasks:lock-set-does-not-cover-footprint, and against C07's Lean lockset), and searched by untraced 4/8/16-thread runs under scheduling jitter whose final totals must equal the one-thread run and the initial totals",
     ]
-    ok = ctx.obligations("CMacVerif.Props.C04", ["drv_c04"])
+    ok = ctx.obligations("CMacVerif.Props.C04", ["drv_c04", "drv_c07"])
     h = vlib.build_harness("c04")
     drv = vlib.driver("drv_c04")
     ctx.cov["tolerance"] = {"cell_level_relative": TOL_CELL, "totals_relative_per_face": TOL_TOTAL}
@@ -956,6 +1108,8 @@ def run(ctx):
         ctx.sample({"op": op[:120] + "...", "impl": impl[i][:100] if i < len(impl) else None})
     # ---- real runs
     do_runs(ctx, ctx.budget(40, 400), ctx.budget(1500, 4000))
+    # fixed quick budget (not escalated by a changed source fingerprint: the runs are the expensive part)
+    stress_conservation(ctx, vlib.full_binary(), 40 if ctx.thorough else 4, 5 if ctx.thorough else 3)
     need = ["fl1", "fl2", "fl4", "fl8", "fl16", "fl32", "lim0", "uc1", "uc2", "up0", "up1", "periodic-box", "walls-subsonic"]
     missing = [t for t in need if not any(k == t or (t.startswith("fl") and k.startswith("fl") and k[2:].isdigit() and int(k[2:]) & int(t[2:])) for k in ctx.cov["branch_histogram"])]
     if missing and ctx.thorough:
@@ -966,7 +1120,22 @@ def replay(ctx, path):
     obj = json.load(open(path))
     if "ops" in obj:
         return vlib.generic_replay(ctx, path, "c04", "drv_c04", cmp=cmp_cell)
-    print(json.dumps({k: v for k, v in obj.items() if k not in ("param", "states")}, indent=1)[:3000])
+    print(json.dumps({k: v for k, v in obj.items() if k not in ("param", "states", "blocks")}, indent=1)[:3000])
+    if obj.get("stress"):
+        from props import c10
+        binary = vlib.full_binary()
+        setup = dict(param=obj["param"], blocks=obj["blocks"], ncell=obj["ncell"], box=obj["box"])
+        s1, ref, log1, first = c10.stress_run(binary, setup, 1, None, want_first=True)
+        s2, st, log2 = c10.stress_run(binary, setup, obj["threads"], obj.get("jitter"))
+        print("one thread: %s; %d threads with jitter %s: %s %s" % (s1, obj["threads"], obj.get("jitter"), s2, log2[-200:]))
+        bad = ref is None or st is None
+        if not bad:
+            t0, t1, tn = snapshot_totals(first, obj["g"]), snapshot_totals(ref, obj["g"]), snapshot_totals(st, obj["g"])
+            rel = [float(abs(tn[j] - t1[j]) / (t0[0] if j == 0 else t0[4] if j == 4 else fractions.Fraction(math.sqrt(2 * float(t0[0]) * float(t0[4]))))) for j in range(5)]
+            print("relative difference of the totals (mass, momentum x y z, energy) to the one-thread run: %r" % rel)
+            bad = max(rel) > 1e-9
+        print("REPRODUCED" if bad else "not reproduced on this run (schedule dependent: repeat)")
+        return 1 if bad else 0
     if "states" not in obj:
         print("replay file names a broken obligation, not an input")
         return 1
